@@ -8,6 +8,7 @@
   A `time.Time` is an `Int` count of nanoseconds since the Unix epoch (wall-clock readings;
   no monotonic part, no location — `UTC()` is the identity on instants).
 -/
+import ScionTime.Model.F64
 namespace ScionTime.Go
 
 /-- `t.Sub(u)`: the exact difference when it fits into an int64, otherwise saturated. -/
@@ -50,5 +51,15 @@ def insertI64 (a : Int64) : List Int64 → List Int64
 def sortI64 : List Int64 → List Int64
   | [] => []
   | a :: l => insertI64 a (sortI64 l)
+
+/-- `d.Abs()` on a time.Duration: `MinInt64` maps to `MaxInt64` -/
+def Duration.abs (d : Int64) : Int64 :=
+  if d.toInt ≥ 0 then d else if d == Int64.minValue then Int64.maxValue else -d
+
+/-- calls a method makes on its `timebase.SystemClock`, in order -/
+inductive ClkAction where
+  | step (offset : Int64)
+  | adjust (offset duration : Int64) (frequency : F64.F64)
+deriving DecidableEq, Repr
 
 end ScionTime.Go
